@@ -3,7 +3,7 @@
 Specification: spec/TextWriters.tla (CSV: a header row for every run of records of one descriptor, then one row per
 record; line: one numbered block per record with one line per selected field; text: one item per record; field
 selection by fields / exclude) -- TLC checks RowPerRecord, HeaderPerRun, BlockNumbering over all descriptor sequences
-<= 5 x 4 option sets -- and spec/Trace_Text.tla.
+<= 5 x 5 option sets -- and spec/Trace_Text.tla.
 Binding: (a) all descriptor sequences <= 4 over {A, A2 (same name, other fields), B} x option sets are written through
 the real CSV, line and text writers and the output is parsed independently (csv.reader / block splitter); TLC compares
 the structure with the model.  (b) for every field type x value class (delimiters, quotes, CR / LF / CRLF, leading
@@ -18,7 +18,8 @@ from vf.common import MachineryError
 
 PROP = "C20"
 RES = ["_source", "_classification", "_generated", "_version"]
-OPTS = [{"fields": [], "excl": []}, {"fields": ["s", "n"], "excl": []}, {"fields": [], "excl": ["_generated", "s"]}, {"fields": ["other", "n", "bogus"], "excl": ["s"]}]
+OPTS = [{"fields": [], "excl": []}, {"fields": ["s", "n"], "excl": []}, {"fields": [], "excl": ["_generated", "s"]}, {"fields": ["other", "n", "bogus"], "excl": ["s"]},
+        {"fields": ["s", "n", "other"], "excl": ["s", "bogus"]}]         # a requested field that is also excluded
 
 
 def descs():
@@ -93,7 +94,7 @@ def run(tier):
 
     ctx = check.Ctx(PROP, tier)
     thorough = tier == "thorough"
-    ctx.design("TextWriters", "MC_TextWriters.cfg", "all descriptor sequences <= 5 over {A, A2, B} x 4 option sets", workers=8)
+    ctx.design("TextWriters", "MC_TextWriters.cfg", "all descriptor sequences <= 5 over {A, A2, B} x 5 option sets", workers=8)
     ctx.sensitivity("TextWriters", "MC_TextWriters_dev.cfg", "a header only before the first record must violate HeaderPerRun", "HeaderPerRun", workers=4)
     D = descs()
     tmp = common.scratch("c20")
@@ -159,7 +160,8 @@ def run(tier):
             continue
         fieldnames = ["f", "n", "s"] + RES
         hist = [{"d": "V", "id": 1}]
-        for writer, extra in (("csv", ""), ("csv", "lineterminator=\\n"), ("line", ""), ("line", "verbose=true"), ("text", ""), ("text", "format_spec={f}|{n}|{s}")):
+        for writer, extra in (("csv", ""), ("csv", "lineterminator=\\n"), ("line", ""), ("line", "verbose=true"), ("text", ""), ("text", "format_spec={f}|{n}|{s}"),
+                              ("text", "format_spec={s[0]}{n}|{f}|{s.__class__.__name__}")):        # index and attribute access inside the template
             p = os.path.join(tmp, "v." + writer)
             url = {"csv": "csvfile://", "line": "line://", "text": "text://"}[writer] + p + ("?" + extra if extra else "")
             c = {"writer": "value:" + writer, "hist": hist, "opts": OPTS[0], "raised": False, "exc": "none", "items": [], "values_ok": False, "readback_checked": False, "readback_ok": True,
@@ -189,7 +191,7 @@ def run(tier):
                         pos = j + len(needle) if j >= 0 else pos
                     c["values_ok"] = bool(ok)
                 else:
-                    exp = ("{}|{}|{}".format(rec.f, rec.n, rec.s) if extra else repr(rec)) + "\n"
+                    exp = (extra.split("=", 1)[1].format(f=rec.f, n=rec.n, s=rec.s) if extra else repr(rec)) + "\n"
                     c["values_ok"] = text == exp
             except Exception as e:
                 c["raised"], c["exc"] = True, type(e).__name__ + ":" + str(e)[:80]
@@ -219,6 +221,47 @@ def run(tier):
                 c["raised"], c["exc"] = True, type(e).__name__ + ":" + str(e)[:80]
             cases.append(c)
             ctx.case(("readback", delim, trial))
+    # (c2) files written by the CSV writer itself, from narrow to very wide (the reader sniffs the dialect on a sample of the
+    #      first 1024 characters), a single column, and a last row without a line break
+    from flow.record import RecordDescriptor
+
+    widths = list(range(1, 12)) + list(range(12, 80, 3 if not thorough else 1)) + [90, 128, 200]
+    for k in widths:
+        names = [f"field_name_x{j:04d}" for j in range(k)]
+        Dw = RecordDescriptor("w/wide", [("string", n) for n in names])
+        rows = [[f"v{i}_{j}" for j in range(k)] for i in range(3)]
+        p = os.path.join(tmp, "wide.csv")
+        c = {"writer": "readback", "hist": [], "opts": OPTS[0], "raised": False, "exc": "none", "items": [], "values_ok": True, "readback_checked": True, "readback_ok": False, "delim": f"writer-made,{k} columns"}
+        try:
+            with RecordWriter("csvfile://" + p) as w:
+                for row in rows:
+                    w.write(Dw(*row, _generated=gen.GEN))
+            rd = CsvfileReader(p)
+            got = [[getattr(r, n) for n in names] for r in rd]
+            rd.close()
+            c["readback_ok"] = got == rows
+        except Exception as e:
+            c["raised"], c["exc"] = True, type(e).__name__ + ":" + str(e)[:80]
+        cases.append(c)
+        ctx.case(("readback-wide", k))
+    for label, text, want in (("last row without a line break", "alpha,beta,gamma\n1,2,3\n4,5,6", [["1", "2", "3"], ["4", "5", "6"]]),
+                              ("one data row, no line break", "alpha,beta,gamma\n1,2,3", [["1", "2", "3"]]),
+                              ("wide, tab separated", "\t".join(["alpha", "beta", "gamma"] + [f"c{j:020d}" for j in range(70)]) + "\n" + "\t".join(["1", "2", "3"] + ["v"] * 70) + "\n" + "\t".join(["4", "5", "6"] + ["w"] * 70) + "\n",
+                               [["1", "2", "3"], ["4", "5", "6"]]),
+                              ("wide, semicolon separated", ";".join(["alpha", "beta", "gamma"] + [f"c{j:020d}" for j in range(70)]) + "\r\n" + ";".join(["1", "2", "3"] + ["v"] * 70) + "\r\n", [["1", "2", "3"]])):
+        p = os.path.join(tmp, "hand.csv")
+        with open(p, "w", newline="", encoding="utf-8") as f:
+            f.write(text)
+        c = {"writer": "readback", "hist": [], "opts": OPTS[0], "raised": False, "exc": "none", "items": [], "values_ok": True, "readback_checked": True, "readback_ok": False, "delim": label}
+        try:
+            rd = CsvfileReader(p)
+            got = [[r.alpha, r.beta, r.gamma] for r in rd]
+            rd.close()
+            c["readback_ok"] = got == want
+        except Exception as e:
+            c["raised"], c["exc"] = True, type(e).__name__ + ":" + str(e)[:80]
+        cases.append(c)
+        ctx.case(("readback-hand", label))
     ctx.sample({"case": cases[40]})
     ctx.sample({"case": {k: v for k, v in cases[nstruct + 5].items()}})
     # TLC: structure cases are compared with the model; value / read-back cases carry their flags
